@@ -199,8 +199,16 @@ func (P *Program) callEffect(U *Universe, ef *Effects, call ssa.CallInstruction,
 		if externPure(externName(v)) {
 			return
 		}
-		ef.All = true
-		ef.Why = fn.Name() + ": call of " + externName(v)
+		// a library function without a model can only reach the program's memory
+		// through its arguments
+		fams, all := P.unknownExternEffects(U, c)
+		for k, s := range fams {
+			ef.Fams[k] = s
+		}
+		if all {
+			ef.All = true
+			ef.Why = fn.Name() + ": call of " + externName(v) + " with a pointer into program state"
+		}
 	case *ssa.Builtin:
 		switch v.Name() {
 		case "append", "copy":
@@ -229,8 +237,12 @@ func (P *Program) callEffect(U *Universe, ef *Effects, call ssa.CallInstruction,
 		}
 		// a func value: when no func of this signature can come from outside
 		// the package, the callee is one of the package's own closures
-		if fn.Pkg != nil {
-			if cs, closed := P.closuresOfSig(fn.Pkg, c.Signature()); closed {
+		pkg := fn.Pkg
+		for par := fn.Parent(); pkg == nil && par != nil; par = par.Parent() {
+			pkg = par.Pkg
+		}
+		if pkg != nil {
+			if cs, closed := P.closuresOfSig(pkg, c.Signature()); closed {
 				callees[fn] = append(callees[fn], cs...)
 				return
 			}
@@ -344,6 +356,60 @@ func rootIsFresh(v ssa.Value, depth int) bool {
 		return rootIsFresh(x.X, depth+1)
 	case *ssa.Slice:
 		return rootIsFresh(x.X, depth+1)
+	}
+	return false
+}
+
+// unknownExternEffects: what an unmodelled library function may write - the
+// backing arrays of slice arguments; "anything" if it receives a pointer to
+// a struct or an interface/func value of the program (it could call back).
+func (P *Program) unknownExternEffects(U *Universe, c *ssa.CallCommon) (map[string]Sort, bool) {
+	fams := map[string]Sort{}
+	all := false
+	for _, a := range c.Args {
+		switch t := a.Type().Underlying().(type) {
+		case *types.Slice:
+			s := U.sortOf(t.Elem(), false)
+			fams[memFam(s)] = memSort(s)
+		case *types.Pointer:
+			if n, ok := t.Elem().(*types.Named); ok && n.Obj().Pkg() != nil && strings.HasPrefix(n.Obj().Pkg().Path(), modPath) {
+				all = true
+			}
+		case *types.Signature:
+			all = true
+		case *types.Interface:
+			// an interface holding a program object could be called back; library
+			// interfaces (io.Writer, error, ...) holding library objects cannot
+			if mi, ok := a.(*ssa.MakeInterface); ok {
+				if n, ok := derefNamed(mi.X.Type()); ok && n.Obj().Pkg() != nil && strings.HasPrefix(n.Obj().Pkg().Path(), modPath) {
+					if !pureMethodSet(n) {
+						all = true
+					}
+				}
+			}
+		}
+	}
+	return fams, all
+}
+
+func derefNamed(t types.Type) (*types.Named, bool) {
+	if p, ok := t.(*types.Pointer); ok {
+		t = p.Elem()
+	}
+	n, ok := t.(*types.Named)
+	return n, ok
+}
+
+// pureMethodSet: program types whose methods (String, Error, Pos, End, ...) do
+// not write program state; conservative list by package.
+func pureMethodSet(n *types.Named) bool {
+	switch n.Obj().Pkg().Name() {
+	case "ast":
+		return true
+	}
+	switch n.Obj().Name() {
+	case "Error", "ArithExprError", "ParamExpError", "Option":
+		return true
 	}
 	return false
 }
